@@ -431,5 +431,8 @@ CfgAll == Plain \cup Defective
 CfgFaults == Faulty
 CfgNil == NilFaulty
 CfgCloseErrs == CloseErrs
+\* a transient behind OPTIONAL parameter-object fields that fails at its n-th invocation: the field stays zero in that
+\* construction (and only in that one), earlier and later consumers get instances of their own
+CfgOptFaults == Sane({WithFault(Optional, "r2", at, h) : at \in {1, 2, 3}, h \in Hows})
 CfgFaultCloseErrs == Sane(FaultCloseErrs)
 =============================================================================
